@@ -961,3 +961,42 @@ def _converts_only(e: ast.AST, names) -> bool:
         if nm in ("copy", "astype") and isinstance(e.func, ast.Attribute) and _converts_only(e.func.value, names):
             return nm == "copy" or (e.args and ast.unparse(e.args[0]) in ("bool", "np.bool_"))
     return False
+
+
+def check_distribution_names(ck: Checker, prog: Program, rule: str, modules=("hvsr_traditional", "hvsr_azimuthal", "hvsr_diffuse_field", "window_rejection", "object_io", "postprocessing")):
+    """(a) The alias table maps every accepted spelling to the distribution it spells: a key with its hyphens, underscores and blanks
+    removed is its value ("log-normal" is the lognormal assumption).  (b) Sibling consistency of defaults: every parameter named
+    `distribution*` of the result classes and of the functions that report their statistics defaults to the lognormal assumption -
+    an accessor with another default disagrees with its siblings for every caller that relies on the defaults (cov_fn() next to
+    std_fn_frequency())."""
+    dm = prog.registry("constants", "DISTRIBUTION_MAP")
+    n = 0
+    for k, v in dm.items():
+        n += 1
+        val = v.value if isinstance(v, ast.Constant) else None
+        spelled = k.lower().replace("-", "").replace("_", "").replace(" ", "")
+        if val in CANONICAL_NAMES and spelled == val:
+            ck.ok(rule, "constants.DISTRIBUTION_MAP", f"'{k}' -> '{val}'", nontrivial=False)
+        else:
+            ck.violation(rule, "constants.DISTRIBUTION_MAP", f"'{k}'", f"the accepted spelling '{k}' is mapped to {val!r}: statistics asked for under that name use the other assumption",
+                         loc=f"hvsrpy/constants.py:{getattr(v, 'lineno', 0)}")
+    ck.floor(rule, n, 3, "accepted spellings of the distributions")
+    lognormal = {k for k, v in dm.items() if isinstance(v, ast.Constant) and v.value == "lognormal"}
+    m = 0
+    for f in prog.funcs.values():
+        if f.module.name not in modules or f.kind == "lambda":
+            continue
+        d = f.defaults()
+        for p in list(f.params) + list(f.kwonly):
+            if not p.startswith("distribution") or p not in d:
+                continue
+            dv = d[p]
+            if not (isinstance(dv, ast.Constant) and isinstance(dv.value, str)):
+                continue
+            m += 1
+            if dv.value in lognormal:
+                continue
+            ck.violation(rule, f.qualname, f"default of {p}", f"`{p}` defaults to {dv.value!r} here while every sibling defaults to the lognormal assumption: callers that rely on "
+                         f"the defaults get statistics under two different assumptions", loc=f.loc())
+    ck.floor(rule, m, 40, "defaults of distribution parameters")
+    ck.ok(rule, "distribution defaults", f"{m} parameters default to the lognormal assumption")
